@@ -27,6 +27,12 @@ open RotoV.Reg
     `Model/Registration.lean` embodies. -/
 theorem passes_as_modelled : RotoV.Gen.RegPasses.facts = Src.asModelled := by decide
 
+/-- **`rust_type_to_roto_type` is written as `convTy` models it**: the unit type
+    first; `Leaf` and `Val` look the registered type up (an error if there is
+    none); `Option`, `List`, `Verdict`, `Result` convert their components and
+    rebuild the same constructor with the components in the same order. -/
+theorem conv_as_modelled : RotoV.Gen.RegPasses.convFacts = Src.convAsModelled := by decide
+
 /-- the model switches the source determines are those of `Cfg.fixed` -/
 theorem source_cfg : RotoV.Gen.RegPasses.facts.cfg = Cfg.fixed := by decide
 
